@@ -229,7 +229,7 @@ class Ctx(object):
             n = max(n, thorough)
         elif self.escalated:
             # changed source: a deeper look, but bounded so that a quick run stays a quick run
-            n = max(n, min(thorough, 6 * quick))
+            n = max(n, min(thorough, 3 * quick))
         return n
 
     @property
